@@ -1,10 +1,11 @@
 (* correspondence entry points for C04 *)
-From QV.Model Require Import Base Matrix Convert Reduce.
+From QV.Model Require Import Base Matrix Arith Convert Reduce.
+From QV.Proofs Require Import InvProofs.
 Open Scope Q_scope.
 
 Inductive cin :=
 | Conv (fn : nat) (src : option kind) (t : terms)        (* 0 pubo_to_puso 1 puso_to_pubo 2 qubo_to_quso 3 quso_to_qubo *)
-| Method (k : kind) (t : terms) (meth : nat)             (* QUBO / QUSO object: 0 to_qubo 1 to_quso 2 to_pubo 3 to_puso *)
+| Method (k : kind) (t : terms) (es : list edit) (meth : nat)   (* object built from t, edited in place, then 0 to_qubo 1 to_quso 2 to_pubo 3 to_puso *)
 | ConvSol (k : kind) (t : terms) (sol : list (nat * Z)) (flag : bool)
 | ExportQ (t : terms) | ExportH (t : terms) | ExportJ (t : terms)
 | ToMatrix (t : terms) (sym : bool)
@@ -33,8 +34,8 @@ Definition run_case (c : cin) : cout :=
       out_model (with_src src t (match fn with
                                  | 0%nat => pubo_to_puso | 1%nat => puso_to_pubo
                                  | 2%nat => qubo_to_quso | _ => quso_to_qubo end))
-  | Method k t meth =>
-      out_model (bind (m_create k t) (fun m =>
+  | Method k t es meth =>
+      out_model (bind (bind (m_create k t) (fun m0 => run_edits m0 es)) (fun m =>
         match k, meth with
         | KQubo, 0%nat => qubo_to_qubo m | KQubo, 1%nat => qubo_to_quso_m m
         | KQubo, 2%nat => qubo_to_pubo m | KQubo, _ => qubo_to_puso_m m
